@@ -132,6 +132,51 @@ def rust_str(s):
     return json.dumps(s)
 
 
+
+# ---- sample field texts for the bounded stand-in (vwit C16): by deserializer, then by leaf type ---------------------
+SAMPLE_BY_DE = {
+    "deserialize_yesno": "yes", "deserialize_list": "a\nb", "deserialize_file_list": "*.c src/*", "deserialize_copyrights": "2020 A\n2021 B",
+    "deserialize_string_chain": "a b", "deserialize_types": "deb", "deserialize_uris": "http://deb.example.org/debian", "deserialize_pathbuf": "/a/b",
+    "deserialize_package_list": "foo deb utils optional arch=any", "deserialize_binaries": "foo bar", "deserialize_date": "2020-01-02",
+    "deserialize_origin": "upstream, https://x.example/1", "deserialize_env": "LANG=\"C\"", "deserialize_version": "1.0-1",
+    "deserialize_components": "main contrib", "deserialize_architectures": "amd64 i386",
+}
+SAMPLE_BY_TYPE = {
+    "String": "some text", "bool": "true", "u32": "12", "usize": "12", "u64": "12",
+    "Relations": "a (>= 1), b | c", "debversion::Version": "1:2.0-1", "url::Url": "https://example.org/x", "Url": "https://example.org/x",
+    "Priority": "optional", "crate::fields::Priority": "optional", "crate::fields::MultiArch": "same", "crate::vcs::ParsedVcs": "https://x.example/r.git -b main",
+    "YesNoForce": "force", "Signature": "/usr/share/keyrings/k.gpg", "License": "GPL-2+", "Forwarded": "not-needed", "AppliedUpstream": "1.2",
+    "Vec<String>": "a b", "chrono::NaiveDate": "2020-01-02", "PathBuf": "/a/b",
+}
+TYPE_PATH = {
+    ("debian-control", ("lossy", "control")): "debian_control::lossy", ("debian-control", ("lossy", "apt")): "debian_control::lossy::apt",
+    ("debian-control", ("lossy", "buildinfo")): "debian_control::lossy::buildinfo", ("debian-control", ("lossy", "ftpmaster")): "debian_control::lossy::ftpmaster",
+    ("debian-copyright", ("lossy",)): "debian_copyright::lossy", ("dep3", ("lossy",)): "dep3::lossy", ("apt-sources", ()): "apt_sources",
+}
+
+
+def harness_table(structs):
+    out = ["// GENERATED by tools/gen_derive.py from the struct definitions in /repo: (configured name, sample text, optional) per field, in declaration order",
+           "pub fn run_all() -> Result<usize, super::Fail> {", "    let mut n = 0;"]
+    for rel, crate, modpath, name, has_from, fields in structs:
+        if not has_from:
+            continue
+        tp = TYPE_PATH.get((crate, tuple(modpath)))
+        if tp is None:
+            continue
+        rows = []
+        for ident, fty, key, ser, de in fields:
+            leaf, optional = leaf_type(fty)
+            val = SAMPLE_BY_DE.get(de) if de else None
+            if val is None:
+                val = SAMPLE_BY_TYPE.get(leaf)
+            if val is None:
+                val = "x"
+            rows.append("(%s, %s, %s)" % (json.dumps(key), json.dumps(val), "true" if optional else "false"))
+        out.append("    n += check::<%s::%s>(%s, &[%s])?;" % (tp, name, json.dumps("%s::%s" % (tp, name)), ", ".join(rows)))
+    out += ["    Ok(n)", "}"]
+    return "\n".join(out) + "\n"
+
 def main():
     structs = []      # (rel, crate, modpath, name, has_from, fields)
     for rel, crate, modpath in SOURCES:
@@ -333,6 +378,7 @@ def main():
     open(os.path.join(out, "gen_trusted.rs"), "w").write("\n".join(trusted) + "\n")
     open(os.path.join(out, "gen.vspec"), "w").write("\n".join(vspec) + "\n")
     json.dump({"structs": cover, "fields_total": sum(c["fields"] for c in cover)}, open(os.path.join(out, "coverage.json"), "w"), indent=1)
+    open(os.path.join(VERIF, "tools", "witness", "src", "gen_c16.rs"), "w").write(harness_table(structs))
     print("gen_derive: %d structs, %d fields" % (len(cover), sum(c["fields"] for c in cover)))
 
 
